@@ -122,7 +122,7 @@ fn run_random(tracer: &Tracer, rng: &mut StdRng, nops: usize, nreaders: usize, r
     let mut cfg = Cfg::default();
     cfg.threads = pick(rng, &[1usize, 2, 3]);
     cfg.flush_after = pick(rng, &[1u32, 2, 3, 0]);
-    cfg.merge = pick(rng, &["none", "log", "any2", "any2"]).to_string();
+    cfg.merge = pick(rng, &["none", "log", "any2", "lazy2", "lazy2"]).to_string();
     tracer.emit(json!({"ev":"reset","cfg":cfg.to_json(),"tag":tag}));
     let mut w = World::new_quiet(tracer, &cfg, true);
     install_sink(tracer, w.regs.clone(), None);
